@@ -11,6 +11,7 @@ import numpy as np
 
 from vp import gen, probe, refmodels as rm
 from vp import defaults
+from vp import reuse
 
 RULE = ('seeded generator: circular / hexagon-like / segmented / off-centre / speckled masks 8..28 per side, random '
         'coefficient vectors, random non-empty subsets of modes 1..21 in random order (contiguous 1..k, non-contiguous, '
@@ -118,6 +119,7 @@ def ill_conditioned(ctx, lentil, rng):
 
 def workload(ctx, lentil):
     defaults.run(ctx, lentil, 'C12', 'compose=own-basis')
+    reuse.run(ctx, lentil, 'C12', 'compose=own-basis')
     rng = ctx.rng
     Z = zmod()
     if ctx.shard % 2 == 0:
